@@ -33,9 +33,10 @@ type smStruct struct {
 
 type smDriver interface {
 	load(via string, keys []string, vals []int) error
-	get(k string) (int, bool)
+	get(k string) (string, bool)
+	val(v int) string
 	length() int
-	enum() [][2]interface{}
+	enum() [][2]string
 	table() ([]uint32, []int32)
 	slot(k string) (uint32, bool)
 	itemKeys() []string
@@ -53,12 +54,16 @@ func (d *smInt) load(via string, keys []string, vals []int) error {
 	}
 	return d.m.LoadFromSlice(keys, vals)
 }
-func (d *smInt) get(k string) (int, bool) { return d.m.Get(k) }
-func (d *smInt) length() int              { return d.m.Len() }
-func (d *smInt) enum() (out [][2]interface{}) {
+func (d *smInt) get(k string) (string, bool) {
+	v, ok := d.m.Get(k)
+	return fmt.Sprint(v), ok
+}
+func (d *smInt) val(v int) string { return fmt.Sprint(v) }
+func (d *smInt) length() int      { return d.m.Len() }
+func (d *smInt) enum() (out [][2]string) {
 	for i := 0; i < d.m.Len(); i++ {
 		k, v := d.m.Item(i)
-		out = append(out, [2]interface{}{k, v})
+		out = append(out, [2]string{k, fmt.Sprint(v)})
 	}
 	return
 }
@@ -88,18 +93,16 @@ func (d *smSt) load(via string, keys []string, vals []int) error {
 	}
 	return d.m.LoadFromSlice(keys, vv)
 }
-func (d *smSt) get(k string) (int, bool) {
+func (d *smSt) get(k string) (string, bool) {
 	v, ok := d.m.Get(k)
-	if ok && v.B != int64(v.A)*3 {
-		return -999999, ok
-	}
-	return int(v.A), ok
+	return fmt.Sprintf("%d/%d", v.A, v.B), ok
 }
-func (d *smSt) length() int { return d.m.Len() }
-func (d *smSt) enum() (out [][2]interface{}) {
+func (d *smSt) val(v int) string { return fmt.Sprintf("%d/%d", int32(v), int64(v)*3) }
+func (d *smSt) length() int      { return d.m.Len() }
+func (d *smSt) enum() (out [][2]string) {
 	for i := 0; i < d.m.Len(); i++ {
 		k, v := d.m.Item(i)
-		out = append(out, [2]interface{}{k, int(v.A)})
+		out = append(out, [2]string{k, fmt.Sprintf("%d/%d", v.A, v.B)})
 	}
 	return
 }
@@ -116,13 +119,19 @@ func (d *smSt) itemKeys() (ks []string) {
 // Str2Str: values are strings derived from the int value ("v<id>" padded), decoded back for the event
 type smS2S struct{ m *strmap.Str2Str }
 
-func s2sVal(v int) string { return fmt.Sprintf("v%d-%s", v, strings.Repeat("x", v%7)) }
-func s2sBack(s string) int {
-	var v int
-	if _, err := fmt.Sscanf(s, "v%d-", &v); err != nil || s2sVal(v) != s {
-		return -999999
+// Str2Str values: empty, short, long and binary strings (several ids share the empty value)
+func s2sVal(v int) string {
+	switch v % 9 {
+	case 0:
+		return ""
+	case 1:
+		return fmt.Sprintf("%d", v)
+	case 2:
+		return string(PatBytes(v%250, 0, 300+v%5000))
+	case 3:
+		return "\x00" + fmt.Sprint(v) + "\xff"
 	}
-	return v
+	return fmt.Sprintf("v%d-%s", v, strings.Repeat("x", v%7))
 }
 func (d *smS2S) load(via string, keys []string, vals []int) error {
 	vv := make([]string, len(vals))
@@ -138,20 +147,19 @@ func (d *smS2S) load(via string, keys []string, vals []int) error {
 	}
 	return d.m.LoadFromSlice(keys, vv)
 }
-func (d *smS2S) get(k string) (int, bool) {
+func (d *smS2S) get(k string) (string, bool) {
 	v, ok := d.m.Get(k)
-	if !ok {
-		return 0, false
-	}
-	return s2sBack(v), true
+	return hx(v), ok
 }
-func (d *smS2S) length() int { return d.m.Len() }
-func (d *smS2S) enum() (out [][2]interface{}) {
+func (d *smS2S) val(v int) string { return hx(s2sVal(v)) }
+func (d *smS2S) length() int      { return d.m.Len() }
+func (d *smS2S) enum() (out [][2]string) {
 	im := d.m.VerifMap()
 	for i := 0; i < im.Len(); i++ {
 		k, _ := im.Item(i)
+		k = string(append([]byte(nil), k...))
 		v, _ := d.get(k)
-		out = append(out, [2]interface{}{k, v})
+		out = append(out, [2]string{k, v})
 	}
 	return
 }
@@ -188,7 +196,7 @@ func runSMCase(raw json.RawMessage, w *TraceWriter) {
 			kb, _ := hex.DecodeString(kh)
 			k := string(kb)
 			slot, has := d.slot(k)
-			v, ok, panicked := 0, false, false
+			v, ok, panicked := "", false, false
 			func() {
 				defer func() {
 					if p := recover(); p != nil {
@@ -198,7 +206,7 @@ func runSMCase(raw json.RawMessage, w *TraceWriter) {
 				v, ok = d.get(k)
 			}()
 			if !ok {
-				v = 0
+				v = ""
 			}
 			w.Ev("get", "key", kh, "slot", int(slot), "hasslot", has, "ok", ok, "val", v, "panic", panicked)
 		}
@@ -229,13 +237,13 @@ func runSMCase(raw json.RawMessage, w *TraceWriter) {
 		ik := d.itemKeys()
 		var kv, items, enum []string
 		for i, k := range keys {
-			kv = append(kv, fmt.Sprintf(`["%s",%d]`, hx(k), vals[i]))
+			kv = append(kv, fmt.Sprintf(`["%s","%s"]`, hx(k), d.val(vals[i])))
 		}
 		for i, k := range ik {
 			items = append(items, fmt.Sprintf(`["%s",%d]`, hx(k), slots[i]))
 		}
 		for _, e := range d.enum() {
-			enum = append(enum, fmt.Sprintf(`["%s",%d]`, hx(e[0].(string)), e[1].(int)))
+			enum = append(enum, fmt.Sprintf(`["%s","%s"]`, hx(e[0]), e[1]))
 		}
 		hts := make([]int, len(ht))
 		for i, x := range ht {
